@@ -13,7 +13,7 @@
    [term_ok ctx t]: the text t after the word is the end of input or starts with
    a rune that cannot start a primary in the context (white space, ; | ) ...). *)
 From verif Require Import lib.Base lib.Utf8 model.C03 proofs.C03_proofs model.C43
-  proofs.C43_proofs proofs.C43_oracle.
+  proofs.C43_proofs proofs.C43_oracle proofs.C43_full proofs.C43_var.
 From Coq Require Import Permutation Sorted.
 Open Scope N_scope.
 
@@ -101,7 +101,8 @@ Print Assumptions C43_bare_only_if_asked.
 (* The replaced range lies within the buffer (for the node ranges the parser
    reported, which lie within the buffer). *)
 Theorem C43_replace_range_in_buffer : forall (is_print : N -> bool) homes t src (buf : bytes) r seed q,
-  tree_wf buf t -> complete_model is_print homes t src = MRes r seed q ->
+  tree_wf buf t -> (r_name r = NVariable -> var_leaf_wf t) ->
+  complete_model is_print homes t src = MRes r seed q ->
   (r_from r <= r_to r)%nat /\ (r_to r <= length buf)%nat.
 Proof. exact replace_range_in_buffer. Qed.
 Print Assumptions C43_replace_range_in_buffer.
@@ -166,24 +167,91 @@ Theorem C43_oracle_sound : forall (pr : N -> bool) buf name src ty res obs,
 Proof. exact check_C43_sound. Qed.
 Print Assumptions C43_oracle_sound.
 
-(* The model satisfies the per-item part of the oracle for ALL inputs: for every
-   item the pipeline offers for an argument or redirection word (candidates that
-   quote, byte strings, a terminator after the suffix), the observation the judge
-   predicts for the implementation is (the candidate's value, in the started
-   style when representable).
-   FULL statement (kept visible; see checks/C43.md for why only this part):
-     forall ..., complete_model ... = MRes r seed q -> wf ... ->
-       check_C43 pr buf (r_name r) src (mkTyped q seed) r (map predicted ...) = true
-   i.e. including offered_ok (set equality with expected_files and NoDup of the
-   inserted texts), which needs injectivity of Cook on a duplicate-free listing. *)
-Theorem C43_model_items_satisfy_oracle_partial : forall (pr : N -> bool) q r (buf : bytes) from to,
+(* Cook is injective: for a fixed seed style, distinct candidates get distinct
+   inserted texts (equal texts would read back to equal strings); in particular
+   QuoteAs is injective on byte strings, for every style. *)
+Theorem C43_cook_injective : forall (pr : N -> bool) q r1 r2,
+  good_item r1 -> good_item r2 ->
+  to_insert (cook pr q r1) = to_insert (cook pr q r2) -> item_str r1 = item_str r2.
+Proof. exact cook_inj. Qed.
+Print Assumptions C43_cook_injective.
+
+Theorem C43_quote_as_injective : forall (pr : N -> bool) q s1 s2,
+  Forall (fun b => b < 256) s1 -> Forall (fun b => b < 256) s2 ->
+  fst (QuoteAs pr s1 q) = fst (QuoteAs pr s2 q) -> s1 = s2.
+Proof. exact quote_as_inj. Qed.
+Print Assumptions C43_quote_as_injective.
+
+(* MAIN: the model satisfies the WHOLE oracle, for ALL inputs.  Whenever the
+   model of Complete answers for an argument or redirection word (any path,
+   pieces, homes; file names from any duplicate-free listing of slash-free
+   byte-string names, or any fixed generator of candidates that quote and carry
+   no suffix or a space), with node ranges inside the buffer on rune boundaries
+   and a terminator after the replaced range, then the observations the judge
+   predicts exist for every item and check_C43 accepts them: range in the
+   buffer; every completed word evaluates to its candidate, in the started style
+   when representable; the offered values are exactly the entries / candidates
+   with the typed prefix, each inserted text once. *)
+Theorem C43_model_satisfies_oracle : forall (pr : N -> bool) homes t src (buf : bytes) r seed q,
+  complete_model pr homes t src = MRes r seed q -> r_name r <> NVariable ->
+  tree_wf buf t ->
+  on_boundary buf (t_leaf_to t) = true -> on_boundary buf (t_cfrom t) = true ->
+  on_boundary buf (t_cto t) = true ->
+  Forall (fun b => b < 256) seed -> src_wf src ->
+  term_ok pr CNormal (skipn (r_to r) buf) ->
+  exists obs,
+    Forall2 (fun it o => predicted_obs pr buf (r_from r) (r_to r) it = Some o) (r_items r) obs
+    /\ check_C43 pr buf (r_name r) src (mkTyped q seed) r obs = true.
+Proof. exact model_satisfies_oracle. Qed.
+Print Assumptions C43_model_satisfies_oracle.
+
+(* the per-item core of it, for any candidate *)
+Theorem C43_model_item_satisfies : forall (pr : N -> bool) q r (buf : bytes) from to,
   (from <= length buf)%nat ->
   Forall (fun b => b < 256) (item_str r) -> quotes r = true ->
   term_ok pr CNormal (item_suffix r ++ skipn to buf) ->
   exists o, predicted_obs pr buf from to (cook pr q r) = Some o
     /\ item_spec pr q (cook pr q r) o.
 Proof. exact model_item_satisfies. Qed.
-Print Assumptions C43_model_items_satisfy_oracle_partial.
+Print Assumptions C43_model_item_satisfies.
+
+(* ---- variable completion (names after the dollar sign) ---- *)
+
+(* The name part typed after the dollar sign (no sigil, no namespace) is
+   replaced by QuoteVariableName of a name in scope, inserted verbatim; what
+   then starts at the dollar sign is ONE variable primary naming exactly that
+   variable.  From C03_quote_var_parses_back. *)
+Theorem C43_variable_substituted_evaluates : forall (pr : N -> bool) ctx (pre mid post n : bytes),
+  Forall (fun b => b < 256) n -> term_ok pr ctx post ->
+  read_compound pr ctx
+    (skipn (length pre)
+       (subst (pre ++ cDOLLAR :: mid ++ post) (S (length pre)) (S (length pre) + length mid)
+              (to_insert (cook pr TBare (RNoQuote (QuoteVariableName pr n))))))
+  = COk [(TVar, n)] post.
+Proof. exact var_substituted_reads_back. Qed.
+Print Assumptions C43_variable_substituted_evaluates.
+
+(* what the model of completeVariable offers, for any sort meeting the contract *)
+Theorem C43_variable_items_offered : forall (pr : N -> bool) sort seed ns names it,
+  sort_contract sort ->
+  In it (pipeline pr sort seed TBare (var_items pr ns names)) ->
+  has_prefix (to_insert it) seed = true
+  /\ ((exists n, In n names /\ to_insert it = QuoteVariableName pr n)
+      \/ (ns = [] /\ (to_insert it = [101; 58] \/ to_insert it = [69; 58]))).
+Proof. exact var_items_offered. Qed.
+Print Assumptions C43_variable_items_offered.
+
+(* The same statement after an explode sigil (or a typed namespace) is false of
+   the code: the quoted form of a name that needs quoting, inserted after the at
+   sign, is not read as that variable (witness: the name [a b]).  Not reachable
+   with a non-empty typed seed (FilterPrefix compares with the quoted text);
+   see checks/C43.md. *)
+Theorem C43_variable_after_sigil_refuted :
+  exists n : bytes,
+    read_compound ascii_print CNormal (cDOLLAR :: cAT :: QuoteVariableName ascii_print n)
+    <> COk [(TVar, cAT :: n)] [].
+Proof. exact var_after_sigil_refuted. Qed.
+Print Assumptions C43_variable_after_sigil_refuted.
 
 (* ---- non-vacuity ---- *)
 From Coq Require Import String.
@@ -213,3 +281,26 @@ Example C43_ex_oracle_rejects :
     (mkRes NArgument 5 6 [mkItem (hx "61206220"%string) (hx "612062"%string)])
     [mkIObs (WWord [(TBare, [97])] 1) (EStr [97])] = false.
 Proof. vm_compute. reflexivity. Qed.
+
+(* the model of Complete answers on a concrete tree: [echo a] with the dot at the
+   end, directory with [ab] and [a b]/ : argument, range 5..6, two items; and
+   [echo $v] with variables [va b], [vab], [x]: variable, range 6..7, one item
+   (the quoted name of [va b] does not start with v) *)
+Example C43_ex_complete_model :
+  let es := [(hx "6162"%string, false); (hx "612062"%string, true)] in
+  let t := mkTree [KPrimary (PStr TBare); KIndexing; KCompound; KForm true false; KPipeline; KChunk]
+                  6 [mkPiece (Some TBare) (Some [97]) false 6] 6 TBare 5 6 (Some (hx "6563686f"%string)) 5 [97] in
+  match complete_model ascii_print [] t (GFiles [46] (Some es)) with
+  | MRes r seed q => r_from r = 5%nat /\ r_to r = 6%nat /\ map to_insert (r_items r) = [hx "276120622f27"%string; hx "616220"%string]
+  | _ => False
+  end.
+Proof. vm_compute. repeat split. Qed.
+
+Example C43_ex_variable_model :
+  let t := mkTree [KPrimary (PStr TVar); KIndexing; KCompound; KForm true false; KPipeline; KChunk]
+                  7 [] 0 TVar 0 0 None 5 [118] in
+  match complete_model ascii_print [] t (GVars [hx "76612062"%string; hx "766162"%string; [120]]) with
+  | MRes r seed q => r_name r = NVariable /\ r_from r = 6%nat /\ r_to r = 7%nat /\ map to_insert (r_items r) = [hx "766162"%string]
+  | _ => False
+  end.
+Proof. vm_compute. repeat split. Qed.
